@@ -13,7 +13,7 @@ From RU Require Import Base.Prelude Base.Utf8 Model.HostT Model.UrlRecord Model.
   Proofs.C06_Main Proofs.C02_Reach Proofs.C02_AuthParts Proofs.C02_AuthMain Proofs.C04_ParseTotal
   Proofs.C03_ReachParts Proofs.C03_Reach Proofs.C03_ReachFile Proofs.C03_ReachHost Proofs.C03_ReachHist
   Model.FilePath Proofs.C06_Path Proofs.C06_Host Proofs.C05_Enc Proofs.C03_ReachAll Proofs.C03_Reachability
-  Proofs.C03_ReachAscii Proofs.C03_ReachEx Proofs.C03_Views Proofs.C03_PortInv Proofs.C03_PortParse.
+  Proofs.C03_ReachAscii Proofs.C03_ReachEx Proofs.C03_Views Proofs.C03_PortInv Proofs.C03_PortParse Proofs.C03_AuthEnd Proofs.C03_ReachKnown.
 Open Scope string_scope.
 Open Scope N_scope.
 Open Scope list_scope.
@@ -306,6 +306,56 @@ Proof.
 Qed.
 Print Assumptions C03_accessors_reach.
 
+(* ---------- R3. histories whose exclusions are only the known findings ---------- *)
+(* auth_end_ok, the member of excl03 that is not a known finding, follows from an invariant of histories, HE u
+   (Proofs/C03_AuthEnd.v): with a special scheme a host text does not end in '/', and a special scheme other than
+   file has a host.  HE is preserved by every call of the 19 mutators outside excl03 - NoEmpty hp: Host::parse never
+   returns the empty host (it fails with EmptyHost); IpWf hd: the display of an IpAddr is a host text (non-empty,
+   not starting with ':' / '@', not ending in '/') *)
+Theorem C03_auth_end_step : forall dbg hp hpo hd u o u', HostWf hp hpo hd -> NoEmpty hp -> IpWf hd ->
+  wf_b u = true /\ host_text_ok u -> op_args_ok o -> excl03 u o u' = false ->
+  apply_op dbg hp hpo hd u o = Some u' -> HE u -> HE u' /\ auth_end_ok u.
+Proof.
+  intros dbg hp hpo hd u o u' HW HNE HIP K Ha G H K0.
+  split; [exact (he_step dbg hp hpo hd HW HNE HIP u o u' K Ha G H K0) | exact (he_auth_end u K K0)].
+Qed.
+Check C03_auth_end_step : forall dbg hp hpo hd u o u', HostWf hp hpo hd -> NoEmpty hp -> IpWf hd ->
+  wf_b u = true /\ host_text_ok u -> op_args_ok o -> excl03 u o u' = false ->
+  apply_op dbg hp hpo hd u o = Some u' -> HE u -> HE u' /\ auth_end_ok u.
+Print Assumptions C03_auth_end_step.
+
+(* reach03k dbg hp hpo hd (Proofs/C03_ReachKnown.v): Url::parse (no base) of a text (&str) with a scheme other than
+   "file" - C02's four closed-form classes - or Url::from_file_path / from_directory_path of a byte string,
+   followed by ANY sequence of calls of the 19 mutators (successful or failing) with
+   known03k u o u' = negb (url_eqb u' u) && excl03k u o u' = false, where excl03k is excl03 WITHOUT the auth_end_b
+   member: the exclusions are exactly the known classes F-C03-5, F-C02-2, F-C02-8, the '?' / '#' half of F-C02-3
+   and the empty-host-with-port half of F-C02-4 (all witnessed: C03_excl03_exact).  Every such record satisfies
+   wf_b /\ host_text_ok, auth_end_ok, and never stores the default port of its scheme.  Hypotheses on the host
+   functions: HostRT and host_above of C02, NoEmpty, IpWf (all met by the example instance).
+   Not covered: joins and file: texts (the parser is known there only through wf_b: C03_reachability). *)
+Theorem C03_reachability_known : forall dbg hp hpo hd,
+  HostRT hp hpo hd -> host_above hp hpo hd -> NoEmpty hp -> IpWf hd ->
+  forall u, reach03k dbg hp hpo hd u ->
+  (wf_b u = true /\ host_text_ok u) /\ auth_end_ok u /\ PN u /\ reach03a dbg hp hpo hd u.
+Proof.
+  intros dbg hp hpo hd HRT HAb HNE HIP u R.
+  destruct (reach03k_inv dbg hp hpo hd HRT HAb HNE HIP u R) as (K & He & Pn & Rn).
+  split; [exact K|]. split; [exact (he_auth_end u K He)|]. split; [exact Pn | exact (reach03n_sub dbg hp hpo hd u Rn)].
+Qed.
+Check C03_reachability_known : forall dbg hp hpo hd,
+  HostRT hp hpo hd -> host_above hp hpo hd -> NoEmpty hp -> IpWf hd ->
+  forall u, reach03k dbg hp hpo hd u ->
+  (wf_b u = true /\ host_text_ok u) /\ auth_end_ok u /\ PN u /\ reach03a dbg hp hpo hd u.
+Print Assumptions C03_reachability_known.
+
+(* the hypotheses are met (Host::parse fails on the empty text, Host::parse_opaque returns the empty host), and a
+   history through the special-scheme path setter: parse "http://h:81/p?q", set_path "x/../y", quirks set_host
+   "g:443", set_scheme "https" -> "https://g/y?q" (443 became the default and is dropped) *)
+Example C03_reachability_known_inhabited :
+  ((HostRT ex_hp3 ex_hp ex_hd2 /\ host_above ex_hp3 ex_hp ex_hd2) /\ NoEmpty ex_hp3 /\ IpWf ex_hd2)
+  /\ reach03k_example_stmt.
+Proof. split; [exact ex3_hyps | exact reach03k_example]. Qed.
+
 (* what separates C03_reachability from "every reachable Url" in the sense of C02 (Reachable: parse, join
    against ANY reached base, all 19 mutators outside C02's known_step):
    (1) base_ok of a reached base is a premise of reach03a's join (special => not cannot-be-a-base);
@@ -313,7 +363,8 @@ Print Assumptions C03_accessors_reach.
    (3) the host half of excl03 is stated on the result (hosti u' = None) while Known_F_C02_4 is stated on the
        argument (an empty text): for abstract host functions they differ;
    (4) for path_segments_mut sessions on an authority-less record excl03 has path_bad, known_step only the marker.
-   (1), (2) are invariants of parsed records still to be carried along the mutators. *)
+   (2) is discharged for histories without joins and file: texts (C03_reachability_known); (1) and the parser
+   half of (2) for join / file: results need an inversion of Parser::parse_url beyond wf_b. *)
 Definition C03_reachability_full_statement : Prop :=
   forall dbg hp hpo hd, HostWf hp hpo hd -> forall u, Reachable dbg hp hpo hd u -> wf_b u = true.
 
